@@ -278,6 +278,30 @@ theorem fixed_quantum (bits : Nat) (p q : Int) (hq : 0 < q) :
 theorem fixed_exact (bits : Nat) (p q : Int) (h : q ∣ p * 2 ^ bits) :
     fixedWire bits p q * q = p * 2 ^ bits := Int.tdiv_mul_cancel h
 
+/-- End to end for `Angle`: the step computed by `Angle.send` is always encodable (one byte) and
+reads back as that step, whatever follows — no value, however large or negative, makes it fail. -/
+theorem angle_wire_roundtrip (cc : CustomCodec) (p q : Int) (rest : Bytes) :
+    ∃ bs, encode cc .angle (.int (angleStep p q)) = .ok bs ∧ bs.length = 1 ∧
+      decode cc .angle (bs ++ rest) = .ok (.int (angleStep p q), rest) := by
+  have hd : IntT.u8.inDom (angleStep p q) := by
+    have := angleStep_range p q
+    simp [IntT.inDom, IntT.signed, IntT.width]; omega
+  obtain ⟨bs, h1, h2, h3⟩ := IntT.u8.unpack_pack _ hd
+  exact ⟨bs, h1, h2, by rw [decode, h3]; rfl⟩
+
+/-- End to end for `FixedPoint`: the wire integer is sent and read back exactly when it fits the base
+integer type, and is `struct.error` (never a wrapped value) when it does not. -/
+theorem fixed_wire_roundtrip (cc : CustomCodec) (base : IntT) (bits : Nat) (p q : Int)
+    (rest : Bytes) :
+    (base.inDom (fixedWire bits p q) →
+      ∃ bs, encode cc (.fixed base bits) (.int (fixedWire bits p q)) = .ok bs ∧
+        decode cc (.fixed base bits) (bs ++ rest) = .ok (.int (fixedWire bits p q), rest)) ∧
+    (¬ base.inDom (fixedWire bits p q) →
+      encode cc (.fixed base bits) (.int (fixedWire bits p q)) = .error .struct) := by
+  refine ⟨fun hd => ?_, fun hd => base.pack_err _ hd⟩
+  obtain ⟨bs, h1, _, h3⟩ := base.unpack_pack _ hd
+  exact ⟨bs, h1, by rw [decode, h3]; rfl⟩
+
 /-! ## non-vacuity: concrete instances of every hypothesis -/
 
 /-- a nested array type, a value of it, its encoding and a strict prefix of that -/
@@ -305,10 +329,11 @@ example : IntT.i16.inDom (-2) ∧ ¬ IntT.u8.inDom 256 := by decide
 example : IntT.i16.pack (-2) = .ok [0xff, 0xfe] := by decide
 example : (4 : Int) ∣ 3 * 2 ^ 5 ∧ fixedWire 5 3 4 = 24 := by decide
 example : fixedWire 5 (-7) 3 = -74 ∧ fixedWire 5 7 3 = 74 := by decide
+example : IntT.i8.inDom (fixedWire 5 3 4) ∧ ¬ IntT.i8.inDom (fixedWire 5 5 1) := by decide
 example : (2 : Int) * (5 % 2) = 2 ∧ roundHalfEven 5 2 = 2 ∧ roundHalfEven 7 2 = 4 := by decide
 example : angleStep 90 1 = 64 ∧ angleStep (-90) 1 = 192 ∧ angleStep 3599 10 = 0 := by decide
-/-- a custom codec satisfying `CustomLaw` on a non-empty domain exists (one tag byte for `pitch`) -/
-example : ∃ cc cw, CustomLaw cc cw ∧ cw .pitch (.int 7) :=
+/-- a custom codec satisfying `CustomLaw` on a non-empty domain exists (one tag byte for `secpos`) -/
+example : ∃ cc cw, CustomLaw cc cw ∧ cw .secpos (.int 7) :=
   ⟨⟨fun _ v => match v with | .int 7 => .ok [7] | _ => .error .type,
     fun _ bs => match bs with | 7 :: r => .ok (.int 7, r) | _ => .error .eof⟩,
    fun _ v => v = .int 7,
